@@ -1,3 +1,4 @@
 import PydapModel.Generated.Tables
 import PydapModel.Sexp
 import PydapModel.Slice
+import PydapModel.Stream
